@@ -111,8 +111,9 @@ class Ctx:
                   wall_s=round(wall, 2), violations=len(self.viol),
                   known_findings_seen=sorted(self.known_hit),
                   repo=REPO)
-        os.makedirs(os.path.join(VERIF, 'evidence'), exist_ok=True)
-        path = os.path.join(VERIF, 'evidence', self.pid + '.json')
+        evdir = os.environ.get('VERIF_EVIDENCE_DIR') or os.path.join(VERIF, 'evidence')
+        os.makedirs(evdir, exist_ok=True)
+        path = os.path.join(evdir, self.pid + '.json')
         with open(path + '.tmp', 'w') as f:
             json.dump(ev, f, indent=1, sort_keys=True, default=repr)
         os.replace(path + '.tmp', path)
